@@ -60,6 +60,24 @@ Proof.
   apply andb_true_iff in H. destruct H as [H1 H2]. exists vs. repeat split; assumption.
 Qed.
 
+Lemma zl_struct_inv : forall n ty d b,
+  zero_like sch (S n) ty b = true -> rk sch ty = RStruct d ->
+  exists bs, b = VStruct bs /\ fields_all (zero_like sch n) (zero_like sch n) (struct_fields d) bs = true.
+Proof.
+  intros n ty d b H Hk. cbn [zero_like] in H. rewrite Hk in H. destruct b as [| | | | | | |bs|]; try discriminate.
+  exists bs. split; [reflexivity | exact H].
+Qed.
+
+Lemma zl_ptr_inv : forall n ty t b, zero_like sch (S n) ty b = true -> rk sch ty = RPtr t -> b = VPtr None.
+Proof.
+  intros n ty t b H Hk. cbn [zero_like] in H. rewrite Hk in H. destruct b as [| | | | |[?|]| | |]; try discriminate. reflexivity.
+Qed.
+
+Lemma zl_string_inv : forall n ty b, zero_like sch (S n) ty b = true -> rk sch ty = RString -> b = VStr [].
+Proof.
+  intros n ty b H Hk. cbn [zero_like] in H. rewrite Hk in H. destruct b as [| | |[|]| | | | |]; try discriminate. reflexivity.
+Qed.
+
 Lemma zero_struct : forall k ty d,
   rk sch ty = RStruct d -> zero sch (S k) ty = VStruct (map (fun f => zero sch k (f_type f)) (struct_fields d)).
 Proof. intros k ty d Hk. cbn [zero]. rewrite Hk. reflexivity. Qed.
